@@ -267,7 +267,8 @@ def rp_check(repo, res, fn_q, enum, accepted, flows, rule="RP"):
                         continue
                     if fname in cf:
                         ok = has_root(p, v, fname) and not any(has_root(p, v, o) for o in cf if o != fname)
-                        res.check(ok, rule, key, f"child field rebuilt from {A.show(p)}", loc)
+                        stale = ok and p[0] == "bind"  # the matched node's own child put back unchanged into a NEW node
+                        res.check(ok and not stale, rule, key, f"child field rebuilt from {A.show(p)}" + (": the rebuilt node keeps the matched node's untraversed child -- whatever the pass computed for it is discarded" if stale else ""), loc)
                     else:
                         ok = p[0] == "bind" and p[1].split("::")[-1] == v and p[2] == fname
                         res.check(ok, rule, key, f"field kept from {A.show(p)}" if ok else f"field `{fname}` of rebuilt {v} comes from {A.show(p)}, expected the matched node's own `{fname}`", loc)
